@@ -470,8 +470,8 @@ def one_case(ctx, rng, idx, out):
                     obs = DC.delta_obs(rr["result"])
                     if not any(e and e[0] == "UNEXPECTED-CATEGORY" for e in obs):
                         b_ = "true" if bid else "false"
-                        out["dlt"].append(("SL [sx_loaded_delta default_world %s %s; sx_reencoded_delta default_world %s %s]" % (
-                            b_, P.prog_coq(ops), b_, P.prog_coq(ops)), [obs, obs], dict(case, corr="delta-model")))
+                        out["dlt"].append(("sx_delta_all default_world %s %s" % (b_, P.prog_coq(ops)),
+                            [obs, obs, _norm_opcode_payload(pv_canon(rr["result"]))], dict(case, corr="delta-model")))
                 except Exception:
                     ctx.count("corr:delta-model-outside-universe")
             shared = _shares_mutable(rr["result"])
@@ -545,6 +545,15 @@ def one_case(ctx, rng, idx, out):
                                 dict(case, corr="json")))
         except Unsupported:
             ctx.count("corr:json-outside-model")
+
+
+def _norm_opcode_payload(c):
+    """Opcode.new_values None reads as [] in Delta ("new_values or []"): the rebuilt payload writes []"""
+    if isinstance(c, list) and c and c[0] == "Op":
+        return c[:7] + [["L", []] if c[7] is None else _norm_opcode_payload(c[7])]
+    if isinstance(c, list):
+        return [_norm_opcode_payload(x) for x in c]
+    return c
 
 
 def _shares_mutable(obj):
@@ -887,7 +896,8 @@ def encoder_part(ctx, items):
 def accepts_part(ctx, items):
     """Which real dumps lie in the encoding class of C14_accepted_encodings_roundtrip.  Informational
     (a pickler that leaves the class - another protocol, say - is not a violation: the VM run above still
-    checks its dumps); only an accepted dump WITH a shared mutable object would contradict the model."""
+    checks its dumps).  On the unchanged tree every generated dump is inside the class, shared lists /
+    dicts / sets fetched from the memo included."""
     if not items:
         return
     from concurrent.futures import ThreadPoolExecutor
@@ -901,7 +911,7 @@ def accepts_part(ctx, items):
                             '"BEGIN" ++ nl ++ show_accepts [%s] ++ nl ++ "END"' % "; ".join(e for e, _s, _c in parts[k]))
     with ThreadPoolExecutor(max_workers=core.NCPU) as ex:
         outs = list(ex.map(one, range(len(parts))))
-    acc = rej_unshared = rej_shared = 0
+    acc = acc_shared = rej = 0
     examples = []
     for part, txt in zip(parts, outs):
         if txt is None:
@@ -914,20 +924,15 @@ def accepts_part(ctx, items):
             ctx.corr_cases += 1
             if fl == "T":
                 acc += 1
-                if shared:
-                    ctx.corr_mismatch += 1
-                    ctx.break_("correspondence", {"name": "accepts", "case": case,
-                                                  "meaning": "the checker accepted a dump that fetches a shared mutable object from the memo"})
-            elif shared:
-                rej_shared += 1
+                acc_shared += 1 if shared else 0
             else:
-                rej_unshared += 1
+                rej += 1
                 if len(examples) < 3:
                     examples.append(case)
-    ctx.count("corr_cases:real dumps tested for the proved encoding class", acc + rej_shared + rej_unshared)
-    ctx.note("proved_encoding_class", {"real_dumps": acc + rej_shared + rej_unshared, "accepted": acc,
-                                       "outside_because_shared_mutable_object": rej_shared,
-                                       "outside_for_another_reason": rej_unshared, "examples_other_reason": examples})
+    ctx.count("corr_cases:real dumps tested for the proved encoding class", acc + rej)
+    ctx.note("proved_encoding_class", {"real_dumps": acc + rej, "accepted": acc,
+                                       "accepted_that_fetch_a_shared_mutable_object": acc_shared,
+                                       "outside_the_class": rej, "examples_outside": examples})
 
 
 # ---------------------------------------------------------------------------
@@ -988,7 +993,7 @@ def fixed_witnesses(ctx):
 
 
 def run(ctx):
-    n = 2600 if ctx.thorough else 640
+    n = 2600 if ctx.thorough else 520
     out = {"vm": [], "enc": [], "json": [], "acc": [], "dlt": [], "enc_max": 600 if ctx.thorough else 160}
     for i in range(n):
         one_case(ctx, ctx.rng, i, out)
